@@ -34,6 +34,9 @@ type Fill struct {
 	Load []ops.Op `json:"load,omitempty"`
 	// gradient block (styling ops that leave the gradient value in CREG[CSEL])
 	Block []ops.Op `json:"block,omitempty"`
+	// Copy (gradients): after the block the gradient value is copied into another register
+	// through a blend of weight 0 or 255 with a transparent partner, and that register is selected.
+	Copy []ops.Op `json:"copy,omitempty"`
 	// Twice: the fill is a blend of the register it is written to, written two times in a row.
 	Twice bool `json:"twice,omitempty"`
 	// Clear: a gradient whose stops are all fully transparent (a path that is drawn, and under
@@ -65,6 +68,8 @@ type Case struct {
 	SheetOtherImage  bool `json:"sheet_other_image,omitempty"`
 	SheetSameSize    bool `json:"sheet_same_size,omitempty"`
 	SheetNewRenderer bool `json:"sheet_new_renderer,omitempty"`
+	// SheetSameGraphic (with Sheet): the earlier tile is this very graphic (one icon twice on a sheet).
+	SheetSameGraphic bool `json:"sheet_same_graphic,omitempty"`
 	// Window (offset relation): 0 the destination is the whole larger image; 1 a sub-image of it
 	// around the rectangle; 2 a sub-image exactly as wide as the rectangle.
 	Window int `json:"window,omitempty"`
@@ -82,7 +87,10 @@ type Case struct {
 	Origin [2]int `json:"image_origin,omitempty"`
 	// Sheet: the same Renderer and rasteriser first render a tile elsewhere in the larger image.
 	Sheet bool `json:"sheet,omitempty"`
-	K     int  `json:"scale_exponent"`
+	// BlendAgain: the first two paths are filled with the same blend before and after its operand
+	// register changes.
+	BlendAgain bool `json:"blend_again,omitempty"`
+	K          int  `json:"scale_exponent"`
 	Alpha bool `json:"alpha_image"`
 	Src   bool `json:"draw_op_src"`
 }
@@ -94,6 +102,7 @@ func program(c Case) []ops.Op {
 		out = append(out, p.Fill.Load...)
 		if p.Fill.Gradient {
 			out = append(out, p.Fill.Block...)
+			out = append(out, p.Fill.Copy...)
 		} else {
 			out = append(out, ops.OpSetCReg(0, false, *p.Fill.Color))
 		}
@@ -237,10 +246,14 @@ func checkPixels(c Case) error {
 			}
 			r.SetRasterizer(z, tile)
 			r.Reset(gen.VB(vb), pal)
-			r.StartPath(0, vb[0], vb[1])
-			r.AbsLineTo(vb[2], vb[1])
-			r.AbsLineTo(vb[2], vb[3])
-			r.ClosePathEndPath()
+			if c.SheetSameGraphic {
+				ops.ApplyAll(&r, prog)
+			} else {
+				r.StartPath(0, vb[0], vb[1])
+				r.AbsLineTo(vb[2], vb[1])
+				r.AbsLineTo(vb[2], vb[3])
+				r.ClosePathEndPath()
+			}
 			draw.Draw(img, big, image.NewUniform(prefill), image.Point{}, draw.Src)
 			z.DrawOp = op
 			rp := &r
@@ -278,6 +291,7 @@ func checkPixels(c Case) error {
 			sprog = append(sprog, p.Fill.Load...)
 			if p.Fill.Gradient {
 				sprog = append(sprog, scaleOps(p.Fill.Block, c.K, true)...)
+				sprog = append(sprog, p.Fill.Copy...)
 			} else {
 				sprog = append(sprog, ops.OpSetCReg(0, false, *p.Fill.Color))
 			}
@@ -305,6 +319,14 @@ func checkPixels(c Case) error {
 					vm.Step(o, c.H)
 				}
 				direct = append(direct, p.Fill.Block...)
+				for _, o := range p.Fill.Copy {
+					if o.K == ops.SetCReg {
+						direct = append(direct, ops.OpSetCReg(o.Adj, o.Incr, ops.RGBAv(spec.Resolve(*o.C, &vm.Pal, &vm.CReg))))
+					} else {
+						direct = append(direct, o)
+					}
+					vm.Step(o, c.H)
+				}
 			} else {
 				resolved := spec.Resolve(*p.Fill.Color, &vm.Pal, &vm.CReg)
 				vm.Step(ops.OpSetCReg(0, false, *p.Fill.Color), c.H)
@@ -420,7 +442,15 @@ func genFill(t *rapid.T, indirect bool) Fill {
 			out = append(out, ops.OpSetCReg(0, true, ops.RGBAv(g.Colors[i])), ops.OpSetNReg(0, true, g.Offsets[i]))
 		}
 		out = append(out, ops.OpSetCSel(g.Reg), ops.OpSetCReg(0, false, ops.RGBAv(spec.EncodeGradientBits(g.Bits))))
-		return Fill{Gradient: true, Block: out, Clear: clear}
+		f := Fill{Gradient: true, Block: out, Clear: clear}
+		if other, ok := freeReg(g); ok && rapid.IntRange(0, 3).Draw(t, "gradcopy") == 0 {
+			b := ops.ColorV{T: 3, R: 0, G: 0xc0 | g.Reg, B: 0x7f} // all of CREG[g.Reg], none of transparent black
+			if rapid.Bool().Draw(t, "gradcopy.swap") {
+				b = ops.ColorV{T: 3, R: 255, G: 0x7f, B: 0xc0 | g.Reg}
+			}
+			f.Copy = []ops.Op{ops.OpSetCSel(other), ops.OpSetCReg(0, false, b)}
+		}
+		return f
 	}
 	if !indirect {
 		c := ops.RGBAv(gen.PremulColor(t, "flat"))
@@ -456,6 +486,19 @@ func genFill(t *rapid.T, indirect bool) Fill {
 	}
 	f.Color = &c
 	return f
+}
+
+// freeReg: a colour register that holds neither the gradient value nor one of its stops.
+func freeReg(g gen.GradSetup) (uint8, bool) {
+	for r := uint8(0); r < 64; r++ {
+		if r == g.Reg {
+			continue
+		}
+		if d := (r - g.Bits.CBase) & 63; d >= g.Bits.NStops {
+			return r, true
+		}
+	}
+	return 0, false
 }
 
 func genPath(t *rapid.T, indirect bool) Path {
@@ -557,6 +600,24 @@ func genCase(t *rapid.T) Case {
 		c.Origin = [2]int{rapid.IntRange(-30, 30).Draw(t, "iox"), rapid.IntRange(-30, 30).Draw(t, "ioy")}
 	}
 	c.Sheet = rapid.IntRange(0, 2).Draw(t, "sheet") == 0
+	c.SheetSameGraphic = rapid.Bool().Draw(t, "sheetsamegraphic")
+	if rapid.IntRange(0, 5).Draw(t, "blendagain") == 0 {
+		// two leading paths filled with the byte-identical blend, which reads a register that is
+		// unwritten (palette value) the first time and was given another colour the second time
+		r1 := uint8(rapid.IntRange(1, 63).Draw(t, "ba.r1"))
+		b := ops.ColorV{T: 3, R: rapid.SampledFrom([]uint8{0x40, 0x80, 0xc0, 0xff}).Draw(t, "ba.t"), G: 0xc0 | r1, B: rapid.SampledFrom([]uint8{0x7f, 0x30, 0x80}).Draw(t, "ba.c1")}
+		if rapid.Bool().Draw(t, "ba.swap") {
+			b.G, b.B = b.B, b.G
+		}
+		if c.Palette == ops.DefaultPalette() {
+			c.Palette[r1] = color.RGBA{0x20, 0x60, 0x10, 0xc0}
+		}
+		p1, p2 := genPath(t, false), genPath(t, false)
+		p1.Fill = Fill{Color: &b, Load: []ops.Op{ops.OpSetCSel(0)}}
+		p2.Fill = Fill{Color: &b, Load: []ops.Op{ops.OpSetCSel(r1), ops.OpSetCReg(0, false, ops.RGBAv(color.RGBA{0xe0, 0x20, 0x90, 0xff})), ops.OpSetCSel(0)}}
+		c.Paths = append([]Path{p1, p2}, c.Paths...)
+		c.BlendAgain = true
+	}
 	c.SheetSameSize = rapid.Bool().Draw(t, "sheetsame")
 	c.SheetOtherImage = rapid.IntRange(0, 2).Draw(t, "sheetother") == 0
 	c.SheetNewRenderer = rapid.Bool().Draw(t, "sheetnewr")
@@ -606,6 +667,12 @@ func TestPixelRelations(t *testing.T) {
 		}
 		if c.Relation == "offset" && c.Sheet {
 			labels = append(labels, "renderer-and-rasteriser-reused-for-a-second-tile")
+			if c.SheetSameGraphic {
+				labels = append(labels, "the-same-graphic-in-both-tiles")
+			}
+		}
+		if c.BlendAgain {
+			labels = append(labels, "same-blend-before-and-after-its-operand-register-changes")
 		}
 		for _, p := range c.Paths {
 			if p.Fill.Gradient {
